@@ -716,7 +716,7 @@ class DataType(object):
             # range [0,255].
             return e.data(
                 e.param(
-                    '((1?[0-9]?[0-9]|2[0-4][0-9]|25[0-5]).){3}(1?[0-9]?[0-9]|2[0-4][0-9]|25[0-5])',
+                    r'((1[0-9]{2}|[1-9]?[0-9]|2[0-4][0-9]|25[0-5])\.){3}(1[0-9]{2}|[1-9]?[0-9]|2[0-4][0-9]|25[0-5])',
                     name='pattern'
                 ), type='string'
             )
